@@ -140,8 +140,8 @@ def _case(draw, tier):
                delete_partial=draw(st.booleans()), clock=clock)
     final = draw(st.sampled_from(["same", "same", "same", "extend",
                                   "shrink_then_same", "guard_fixed",
-                                  "guard_unpacked"]))
-    if final == "guard_unpacked" and not unpacked:
+                                  "guard_unpacked", "guard_unpacked_last"]))
+    if final in ("guard_unpacked", "guard_unpacked_last") and not unpacked:
         final = "guard_fixed"
     return dict(part="crash", cfg=cfg, crashes=crashes, final=final)
 
@@ -389,13 +389,27 @@ def _run_scenario(case, ctx, tmp, real_exit_first=False):
         D = _durable_ids(inj, paths, tags, "before final run")
         final = case["final"]
         ctx.label("final=" + final)
-        if final in ("guard_fixed", "guard_unpacked"):
+        if final in ("guard_fixed", "guard_unpacked", "guard_unpacked_last"):
+            if final == "guard_unpacked_last":
+                # only the LAST value of the last (sorted) unpacked parameter
+                # changes: the variations using it differ, the others are
+                # unchanged.  Refused iff one of the changed variations has
+                # durable partial results.
+                lastname = names[-1]
+                lastval = dict(cfg["unpacked"])[lastname][-1]
+                changed = [v for v, c in enumerate(combos)
+                           if c[lastname] == lastval]
+                D = dict((v, g) for v, g in D.items() if v in changed)
             if not D:
                 ctx.label("guard_without_partials")
                 return tags, fired_any, False
             cfg2 = json.loads(json.dumps(cfg))
             if final == "guard_fixed":
                 cfg2["fixed"][1][1] = "y"          # 'mode' (not in file name)
+            elif final == "guard_unpacked_last":
+                for nv in cfg2["unpacked"]:
+                    if nv[0] == lastname:
+                        nv[1][-1] = nv[1][-1] + 100
             else:
                 # change the value every durable variation was simulated with
                 cfg2["unpacked"] = [[n, [x + 100 for x in vals]]
